@@ -194,6 +194,13 @@ func VerifH18b() {
 	vAssume(vNoNUL(q))
 	vAssume(q[0] != 'C') // 'C…' is the harness's own marker for the COPY statement
 	vAssume(q[0] != 'R') // 'R…' is the marker for a query the parser rejects
+	vAssume(q[0] != 'P') // 'P…' is the marker for a query whose callback panics
+	// PANICS=1: the first query may be one whose ParseFn or statement function
+	// panics after it was shown (and kept) the text. If the panic escapes, the
+	// connection is over; if the library contains it and serves on, the text
+	// that was handed out is as safe as any other.
+	panicking := vParam("PANICS", 0) == 1 && nondetBool()
+	panicInParse := panicking && nondetBool()
 	if nondetBool() {
 		// a large (but legal) query: three symbolic bytes and a long tail, so that
 		// the message is bigger than the 4 KiB granule and bufio's chunking matters
@@ -217,7 +224,14 @@ func VerifH18b() {
 		if len(query) > 0 && query[0] == 'R' {
 			return nil, errVerifParse // rejected, but the holder keeps the text it was shown
 		}
+		isPanic := len(query) > 0 && query[0] == 'P'
+		if isPanic && panicInParse {
+			panic("verif: the parser panicked")
+		}
 		fn := func(ctx context.Context, dw DataWriter, params []Parameter) error {
+			if isPanic {
+				panic("verif: the statement panicked")
+			}
 			if isCopy {
 				if _, err := dw.CopyIn(BinaryFormat); err != nil {
 					return err
@@ -235,6 +249,12 @@ func VerifH18b() {
 	}
 	var input []byte
 	steps := 0
+	if panicking {
+		pq := vCat([]byte("P"), nondetBytes(2), []byte("anicking-query-text"))
+		vAssume(vNoNUL(pq))
+		input = append(input, vMsgBytes('Q', vCStr(pq))...)
+		steps++
+	}
 	if abandonCopy {
 		input = append(input, vMsgBytes('Q', vCStr([]byte("C")))...)
 		steps++
@@ -292,8 +312,26 @@ func VerifH18b() {
 	w.conn = vNewConn(input)
 	w.ses, w.rd, w.wr = vSession(srv, w.conn)
 	w.ctx = vCtx(srv)
-	for k := 0; k < steps; k++ {
-		_, e := w.step()
+	over := false
+	for k := 0; k < steps && !over; k++ {
+		escaped := false
+		var e error
+		func() {
+			defer func() {
+				if r := recover(); r != nil {
+					escaped = true
+				}
+			}()
+			_, e = w.step()
+		}()
+		if panicking && k == 0 {
+			if escaped || e != nil {
+				over = true // the panic (or the error it became) ended the connection
+				vReach("callback-panic-ends-the-connection")
+			}
+			continue
+		}
+		vAssert("no-panic", !escaped)
 		vAssert("connection-stays-up", e == nil)
 	}
 	want := 3
@@ -303,10 +341,18 @@ func VerifH18b() {
 	if rejected {
 		want += 2
 	}
-	vAssert("queries-were-retained", len(keptQueries) == want)
-	vAssert("parameter-was-retained", keptParamCopy != nil && vEqBytes(keptParamCopy, pv))
+	if panicking {
+		want++
+	}
+	if !over {
+		vAssert("queries-were-retained", len(keptQueries) == want)
+		vAssert("parameter-was-retained", keptParamCopy != nil && vEqBytes(keptParamCopy, pv))
+	}
 	for i := range keptQueries {
 		vAssert("retained-query-unchanged", vEqStr(keptQueries[i], string(keptCopies[i])))
+	}
+	if over {
+		return
 	}
 	vAssert("retained-parameter-unchanged", vEqBytes(keptParam, keptParamCopy))
 	vAssert("retained-parameter-list-unchanged", len(keptParams) == 1 && vEqBytes(keptParams[0].Value(), keptParamCopy))
@@ -537,6 +583,50 @@ func VerifH10g() {
 		vReach("declared-length-with-the-top-bit-set")
 	} else {
 		vReach("declared-length-below-2^31")
+	}
+}
+
+// ---------------------------------------------------------------------------
+// H10u — a declared length below the 4-byte minimum inside a session (C10): a
+// message of any type whose length word is 0..3. It has no body. It is
+// rejected — an ErrorResponse without any callback, or the end of the
+// connection — and it never leads to a read of a negative or wrapped size:
+// a client that sends nothing after the header is not waited for, and when a
+// well-formed Query follows and the connection was kept, that Query is served.
+// ---------------------------------------------------------------------------
+func VerifH10u() {
+	L := 64
+	typ := nondetByte()
+	declared := vChoose(4)
+	hdr := []byte{typ, 0, 0, 0, byte(declared)}
+	follow := nondetBool()
+	input := hdr
+	if follow {
+		input = vCat(hdr, vMsgBytes('Q', vCStr([]byte("b"))))
+	}
+	w := vNewWorld(input, L)
+	w.parseMenu = -1
+	w.execMenu = 1
+	if !follow {
+		w.conn.silent = "undersized-length-rejected-without-waiting-for-a-body"
+		vReach("nothing-follows-the-header")
+	}
+	got, err := w.step()
+	vAssert("undersized-no-callback", len(w.events) == 0)
+	vAssert("undersized-rejected", err != nil || (len(got) >= 1 && got[0] == 'E'))
+	vAssert("wire-wellformed", vWireOK(w.conn.out))
+	if follow && err == nil {
+		got2, err2 := w.step()
+		vAssert("message-after-undersized-served", err2 == nil && vCount(got2, 'Z') == 1 && vCount(got2, 'C') == 1)
+		parsed := false
+		for _, ev := range w.events {
+			if ev.kind == 'p' {
+				parsed = true
+				vAssert("message-after-undersized-intact", string(ev.query) == "b")
+			}
+		}
+		vAssert("message-after-undersized-parsed", parsed)
+		vReach("connection-kept-after-undersized")
 	}
 }
 
